@@ -23,6 +23,8 @@ ALPH = {
     # the wildcard as one token, so that wants with two markers and literal pieces between them
     # ('...a...a', 'a...a...') are inside a 4-token bound under every flag setting
     'E': ['a', ' ', '\n', '...'],
+    # quotes together with the marker (as one token): NORMALIZE_REPR x ELLIPSIS
+    'D': ['a', "'", '...', ' '],
 }
 BITS = list(itertools.product([False, True], repeat=5))
 IDX = {b: i for i, b in enumerate(BITS)}
@@ -297,6 +299,6 @@ class E2ERelSpec(Spec):
 def specs(tier):
     if tier == 'thorough':
         return [RelSpec('W<=4x4', 'W', 4, 4), RelSpec('Q<=4x4', 'Q', 4, 4), RelSpec('M<=4x4', 'M', 4, 4),
-                RelSpec('E<=4x6', 'E', 4, 6), StateReuseSpec(4), E2ERelSpec()]
+                RelSpec('E<=4x6', 'E', 4, 6), RelSpec('D<=4x5', 'D', 4, 5), StateReuseSpec(4), E2ERelSpec()]
     return [RelSpec('W<=4x3', 'W', 4, 3), RelSpec('W<=3x4', 'W', 3, 4, only_new=(3, 3)),
-            RelSpec('Q<=3x3', 'Q', 3, 3), RelSpec('Q<=2x4', 'Q', 2, 4, only_new=(2, 3)), RelSpec('M<=3x3', 'M', 3, 3), RelSpec('E<=3x5', 'E', 3, 5), StateReuseSpec(3), E2ERelSpec()]
+            RelSpec('Q<=3x3', 'Q', 3, 3), RelSpec('Q<=2x4', 'Q', 2, 4, only_new=(2, 3)), RelSpec('M<=3x3', 'M', 3, 3), RelSpec('E<=3x5', 'E', 3, 5), RelSpec('D<=3x4', 'D', 3, 4), StateReuseSpec(3), E2ERelSpec()]
